@@ -309,6 +309,52 @@ def exact_points(ctx, res, terms):
     return n
 
 
+def unit_invariance(ctx, thorough):
+    """UnitInvariantDefinitions (OmegaModels.tla) on the real classes: omega(k) of a chain does not depend on the unit of length -
+    the model with all lengths divided by s, evaluated at k s, gives the same numbers.  Binds the contract of the opaque kernels
+    (Koyama, NFJC), long chains and small bond lengths included."""
+    import pyPRISM.omega as O
+    k = np.concatenate([np.logspace(-3, 2, 40), (np.arange(1, 33)) * 0.17])
+    cases = [('Gaussian', lambda s, N: O.Gaussian(sigma=0.8 / s, length=N), [2, 7, 150]),
+             ('GaussianRing', lambda s, N: O.GaussianRing(sigma=0.8 / s, length=N), [3, 8, 151]),
+             ('FreelyJointedChain', lambda s, N: O.FreelyJointedChain(l=0.8 / s, length=N), [2, 7, 150]),
+             # NonOverlappingFreelyJointedChain is NOT judged here: its documented defining sum writes the excluded-volume
+             # correction with sin(k)/k, i.e. in units of the bond length (only the ideal part uses k l) - for l != 1 the shipped
+             # definition itself depends on the unit of length, and the property speaks of "the model's defining sum" (DESIGN 14)
+             # bond lengths well below and above 1 in the user's unit, stiff and flexible, short and long
+             ('DiscreteKoyama', lambda s, N: O.DiscreteKoyama(sigma=0.05 / s, l=0.05 / s, length=N, lp=0.05 * 4.0 / 3.0 / s), [4, 40, 160 if thorough else 90]),
+             ('DiscreteKoyama', lambda s, N: O.DiscreteKoyama(sigma=0.154 / s, l=0.154 / s, length=N, lp=0.3 / s), [5, 60]),
+             ('DiscreteKoyama', lambda s, N: O.DiscreteKoyama(sigma=3.0 / s, l=2.5 / s, length=N, lp=12.0 / s), [4, 30])]
+    n = 0
+    for kind, make, Ns in cases:
+        for N in Ns:
+            with warnings.catch_warnings():
+                warnings.simplefilter('ignore')
+                with np.errstate(all='ignore'):
+                    try:
+                        ref = np.asarray(make(1.0, N).calculate(np.array(k)), dtype=float)
+                    except Exception as ex:         # valid documented parameters: the evaluation is total
+                        ctx.violation('Total.' + kind, {'family': 'units', 'action': 'Calculate', 'kind': kind, 'N': N, 'length_unit': 1.0,
+                                                        'observed': '%s: %s' % (type(ex).__name__, ex), 'detail': 'evaluation raises for valid parameters'})
+                        continue
+                    for s in (0.05, 8.0, 1000.0):
+                        try:
+                            got = np.asarray(make(s, N).calculate(np.array(k) * s), dtype=float)
+                        except Exception as ex:
+                            ctx.violation('Total.' + kind, {'family': 'units', 'action': 'Calculate', 'kind': kind, 'N': N, 'length_unit': s,
+                                                            'observed': '%s: %s' % (type(ex).__name__, ex),
+                                                            'detail': 'evaluation raises for valid parameters expressed in another unit of length'})
+                            break
+                        n += 1
+                        ctx.count(('units', kind, N, s))
+                        err = float(np.max(np.abs(got - ref) / (np.abs(ref) + 1e-3)))
+                        if not np.all(np.isfinite(got)) or err > 1e-8:
+                            ctx.violation('UnitInvariant', {'family': 'units', 'action': 'Calculate', 'kind': kind, 'N': N, 'length_unit': s, 'rel_err': err,
+                                                            'detail': 'omega(k) changes when every length is expressed in another unit (all lengths / s, k * s)'})
+                            break
+    ctx.stage('unit_invariance', evaluations=n)
+
+
 def run(ctx):
     thorough = ctx.tier == 'thorough'
     ctx.notes['rule'] = ('model objects (7 kinds x chain lengths, Koyama parameter cases) x grid families exported by TLC and executed on the real '
@@ -333,6 +379,7 @@ def run(ctx):
     ad = OmegaAdapter(ctx, terms, 40 if thorough else 12)
     w = Walker(ctx, g, ad, 'replay.OmegaModels')
     ne = w.cover_edges(stutter=True)
+    unit_invariance(ctx, thorough)
     nord = order_independence(ctx, res.records['EDGE'], 12)
     ctx.stage('order_independence', objects=nord)
     # histories on ONE object: Construct; Calculate(g1); Calculate(g2) [; Calculate(g3)] - an evaluation must not depend on earlier ones
